@@ -30,22 +30,30 @@ func (p *pkg) bad(n ast.Node, format string, a ...any) {
 type kind int
 
 const (
-	kInt        kind = iota // Go int            -> Z
-	kU8                     // uint8 / byte       -> N, wraps at 2^8
-	kU16                    // uint16             -> N, wraps at 2^16
-	kBool                   // bool               -> bool
-	kUntypedInt             // untyped integer constant
-	kFloat                  // float64: only inside the ceil idiom
-	kUntypedFlt             // untyped float constant
-	kBytes                  // []byte value       -> list N   (or GoSem.slice when isSliceParam)
-	kBools                  // []bool             -> list bool
-	kArray                  // [n]byte            -> symbolic element list / list N
-	kStruct                 // named struct       -> symbolic field map / model constructor
-	kPtr                    // *T
-	kError                  // error
-	kString                 // string (never emitted)
-	kIface                  // Request / Response
-	kNil                    // the predeclared nil
+	kInt kind = iota // Go int            -> Z
+	kU8              // uint8 / byte       -> N, wraps at 2^8
+	kU16             // uint16             -> N, wraps at 2^16
+	kU32             // uint32             -> N, wraps at 2^32
+	kU64             // uint64             -> N, wraps at 2^64
+	kI8              // int8 .. int64      -> Z, conversions wrap to the signed range
+	kI16
+	kI32
+	kI64
+	kF32        // float32: carried as its bit pattern (N)
+	kBool       // bool               -> bool
+	kUntypedInt // untyped integer constant
+	kFloat      // float64: inside the ceil idiom; as a result: its bit pattern (N)
+	kUntypedFlt // untyped float constant
+	kBytes      // []byte value       -> list N   (or GoSem.slice when isSliceParam)
+	kBools      // []bool             -> list bool
+	kArray      // [n]byte            -> symbolic element list / list N
+	kStruct     // named struct       -> symbolic field map / model constructor
+	kPtr        // *T
+	kError      // error
+	kString     // string (never emitted)
+	kIface      // Request / Response
+	kBuilder    // *strings.Builder: the bytes written so far (list N)
+	kNil        // the predeclared nil
 	kVoid
 )
 
@@ -60,6 +68,13 @@ var (
 	tInt     = &typ{k: kInt}
 	tU8      = &typ{k: kU8}
 	tU16     = &typ{k: kU16}
+	tU32     = &typ{k: kU32}
+	tU64     = &typ{k: kU64}
+	tI8      = &typ{k: kI8}
+	tI16     = &typ{k: kI16}
+	tI32     = &typ{k: kI32}
+	tI64     = &typ{k: kI64}
+	tF32     = &typ{k: kF32}
 	tBool    = &typ{k: kBool}
 	tUntyped = &typ{k: kUntypedInt}
 	tFloat   = &typ{k: kFloat}
@@ -69,6 +84,7 @@ var (
 	tError   = &typ{k: kError}
 	tString  = &typ{k: kString}
 	tNil     = &typ{k: kNil}
+	tBuilder = &typ{k: kBuilder}
 	tVoid    = &typ{k: kVoid}
 )
 
@@ -80,6 +96,20 @@ func (t *typ) String() string {
 		return "uint8"
 	case kU16:
 		return "uint16"
+	case kU32:
+		return "uint32"
+	case kU64:
+		return "uint64"
+	case kI8:
+		return "int8"
+	case kI16:
+		return "int16"
+	case kI32:
+		return "int32"
+	case kI64:
+		return "int64"
+	case kF32:
+		return "float32"
 	case kBool:
 		return "bool"
 	case kUntypedInt:
@@ -102,6 +132,8 @@ func (t *typ) String() string {
 		return "error"
 	case kString:
 		return "string"
+	case kBuilder:
+		return "*strings.Builder"
 	case kIface:
 		return t.name
 	case kNil:
@@ -110,8 +142,24 @@ func (t *typ) String() string {
 	return "void"
 }
 
-func (t *typ) isUint() bool { return t.k == kU8 || t.k == kU16 }
-func (t *typ) isNum() bool  { return t.k == kInt || t.isUint() || t.k == kUntypedInt }
+func (t *typ) isUint() bool { return t.k == kU8 || t.k == kU16 || t.k == kU32 || t.k == kU64 }
+func (t *typ) isSint() bool { return t.k == kI8 || t.k == kI16 || t.k == kI32 || t.k == kI64 }
+
+// bits gives the width of a sized integer type.
+func (t *typ) bits() int {
+	switch t.k {
+	case kU8, kI8:
+		return 8
+	case kU16, kI16:
+		return 16
+	case kU32, kI32:
+		return 32
+	case kU64, kI64:
+		return 64
+	}
+	return 0
+}
+func (t *typ) isNum() bool { return t.k == kInt || t.isUint() || t.isSint() || t.k == kUntypedInt }
 func sameType(a, b *typ) bool {
 	if a.k != b.k {
 		return false
@@ -167,12 +215,16 @@ type pkg struct {
 	// names assigned to anywhere in the package (to check that a package-level array that is
 	// unrolled is never written)
 	assigned map[string]bool
+	// "S.F" for a []byte field F of struct S that some method of S compares with nil / indexes or
+	// re-slices (through its receiver): such a field gets a companion bool "is nil" / is a GoSem.slice
+	nilCompared map[string]bool
+	sliceFields map[string]bool
 }
 
 func loadPkg(dir string) (*pkg, error) {
 	p := &pkg{fset: token.NewFileSet(), structs: map[string]*structDecl{}, named: map[string]*typ{},
 		ifaces: map[string]bool{}, consts: map[string]*constDecl{}, vars: map[string]*ast.ValueSpec{},
-		funcs: map[string]*funcDecl{}, assigned: map[string]bool{}}
+		funcs: map[string]*funcDecl{}, assigned: map[string]bool{}, nilCompared: map[string]bool{}, sliceFields: map[string]bool{}}
 	ents, err := os.ReadDir(dir)
 	if err != nil {
 		return nil, err
@@ -285,6 +337,7 @@ func loadPkg(dir string) (*pkg, error) {
 			}
 		}
 	}
+	p.scanReceiverFields()
 	pending := true
 	for round := 0; pending && round < 10; round++ {
 		pending = false
@@ -314,6 +367,77 @@ func loadPkg(dir string) (*pkg, error) {
 		})
 	}
 	return p, nil
+}
+
+// scanReceiverFields fills nilCompared and sliceFields.
+func (p *pkg) scanReceiverFields() {
+	for _, fd := range p.funcL {
+		if fd.recv == "" || fd.decl.Body == nil || len(fd.decl.Recv.List[0].Names) != 1 {
+			continue
+		}
+		rn := fd.decl.Recv.List[0].Names[0].Name
+		// owner finds the struct that declares field fld, starting from the receiver type
+		var owner func(sname, fld string) string
+		owner = func(sname, fld string) string {
+			sd := p.structs[sname]
+			if sd == nil {
+				return ""
+			}
+			for _, fl := range sd.fields {
+				if fl.name == fld {
+					return sname
+				}
+			}
+			for _, fl := range sd.fields {
+				if fl.embedded && fl.typ.k == kStruct {
+					if o := owner(fl.typ.name, fld); o != "" {
+						return o
+					}
+				}
+			}
+			return ""
+		}
+		recvField := func(e ast.Expr) string {
+			se, ok := e.(*ast.SelectorExpr)
+			if !ok {
+				return ""
+			}
+			id, ok := se.X.(*ast.Ident)
+			if !ok || id.Name != rn {
+				return ""
+			}
+			if o := owner(fd.recv, se.Sel.Name); o != "" {
+				return o + "." + se.Sel.Name
+			}
+			return ""
+		}
+		ast.Inspect(fd.decl.Body, func(n ast.Node) bool {
+			switch x := n.(type) {
+			case *ast.BinaryExpr:
+				if x.Op == token.EQL || x.Op == token.NEQ {
+					if id, ok := x.Y.(*ast.Ident); ok && id.Name == "nil" {
+						if k := recvField(x.X); k != "" {
+							p.nilCompared[k] = true
+						}
+					}
+					if id, ok := x.X.(*ast.Ident); ok && id.Name == "nil" {
+						if k := recvField(x.Y); k != "" {
+							p.nilCompared[k] = true
+						}
+					}
+				}
+			case *ast.IndexExpr:
+				if k := recvField(x.X); k != "" {
+					p.sliceFields[k] = true
+				}
+			case *ast.SliceExpr:
+				if k := recvField(x.X); k != "" && !(x.Low == nil && x.High == nil) {
+					p.sliceFields[k] = true
+				}
+			}
+			return true
+		})
+	}
 }
 
 func (p *pkg) noteAssigned(e ast.Expr) {
@@ -476,6 +600,20 @@ func (p *pkg) typeOfExprOpt(e ast.Expr) *typ {
 			return tU8
 		case "uint16":
 			return tU16
+		case "uint32":
+			return tU32
+		case "uint64":
+			return tU64
+		case "int8":
+			return tI8
+		case "int16":
+			return tI16
+		case "int32":
+			return tI32
+		case "int64":
+			return tI64
+		case "float32":
+			return tF32
 		case "bool":
 			return tBool
 		case "string":
